@@ -10,8 +10,11 @@ import (
 	"encoding/json"
 	"fmt"
 	"os"
+	"reflect"
 	"strings"
 	"time"
+
+	"github.com/go-playground/validator/v10"
 
 	"github.com/nyaruka/gocommon/dates"
 	"github.com/nyaruka/gocommon/uuids"
@@ -261,3 +264,12 @@ func Run(fn func()) (outcome string, detail string) {
 	fn()
 	return "pass", ""
 }
+
+// FieldLevel is what gosym hands to the validator functions goflow registers
+// for its own validation tags: they only ask for the field's value.
+type FieldLevel struct {
+	validator.FieldLevel
+	V reflect.Value
+}
+
+func (f FieldLevel) Field() reflect.Value { return f.V }
